@@ -37,6 +37,7 @@ extern void (*verif_native_threads[])(void);
 extern void (*verif_native_init)(void);
 extern void (*verif_native_final)(void);
 extern void (*verif_native_main)(void);
+extern void (*verif_native_stuck)(void);
 
 static ucontext_t sched_ctx, thr_ctx[VERIF_NSLOT];
 static int in_thread;
@@ -211,6 +212,13 @@ int main(int argc, char** argv)
         stuck = 0;
     }
     if (verif_changed || exhausted) stuck = 0;
+    if (!alld && stuck && verif_native_stuck)
+    {
+        verif_cur = VERIF_NT;
+        verif_budget = 0x7fffffff;
+        verif_native_stuck();
+        stuck = 0;
+    }
     verif_assert_concrete(alld || !stuck, "stuck: unfinished threads are blocked/spinning and a full round changed nothing (deadlock or lost wake-up)");
     if (!alld) verif_concrete_finish("OUT-OF-ROUNDS", "");
     verif_cur = VERIF_NT;
